@@ -5,6 +5,7 @@ use crate::run::Ctx;
 use std::time::Instant;
 
 pub mod c01;
+pub mod c02;
 pub mod c03;
 pub mod c04;
 pub mod c05;
@@ -14,6 +15,7 @@ pub mod c11;
 pub mod c12;
 pub mod c14;
 pub mod c19;
+pub mod c20;
 pub mod pad;
 pub mod mux;
 
@@ -67,6 +69,16 @@ pub fn dispatch(prop: &str, ctx: Ctx, replay: Option<&str>) -> i32 {
             crate::run::start_watchdog(std::time::Duration::from_secs(240), None);
             let rep = c19::run_session_level(ctx);
             finish(rep, c19::meta(), ctx.tier, ctx.seed, started)
+        }
+        "C02" => {
+            crate::run::start_watchdog(std::time::Duration::from_secs(240), None);
+            let rep = c02::run(ctx);
+            finish(rep, c02::meta(), ctx.tier, ctx.seed, started)
+        }
+        "C20" => {
+            crate::run::start_watchdog(std::time::Duration::from_secs(120), Some("C20"));
+            let rep = c20::run_frame_level(ctx);
+            finish(rep, c20::meta(), ctx.tier, ctx.seed, started)
         }
         "C03" => {
             let mut rep = Report::new("C03");
